@@ -7,6 +7,10 @@ Suites
   wlatexdoc : `to_file(…, 'latex')` / `to_latex_document` (full document)       vs the model's text
   wlatexbody: `_print_latex(F, out, split_every, compact)` for other page sizes vs the model's text
   rlatexrow : the model's LaTeX row reader applied to rows of the REAL output    vs the in-memory clause / constraint
+  rlatexbody: the model's reader of a whole body TEXT (`readLatexClausesText` / `readLatexConstraintsText`, the function of
+              Props/C12/LatexText.lean: lines, white-space split, un-glued coefficients, page delimiters) applied to the
+              characters the REAL writer wrote (snippet, other page sizes, the body cut out of the full document)
+              vs the in-memory clause / constraint list
   guessfmt  : `guess_output_format` and the writer chosen by `to_file`          vs the model's table
 
 Oracles (independent of the model)
@@ -37,9 +41,9 @@ RULE = ("formulas: hand-built degenerate ones (empty formula, empty clause / con
         "equalities, negative literals, every input operator), random ones, real cnfgen / pbgen command lines; "
         "0/1/34/35/36/70/71 rows for the page split; with/without header and variable names, odd characters in both; "
         "StringIO and real files; distinct = distinct request line; non-trivial = at least one row")
-ASSUMPTIONS = ["the LaTeX theorems and the token-level OPB theorems speak about token rows; text -> rows is proven for the OPB writer's own output "
-               "(Props/C12/Text.lean: opb_text_roundtrip, numbers up to 4300 digits); the lexer on other texts and the LaTeX lexer "
-               "(incl. the split of a glued coefficient `2{x}`) are compared, not proven",
+ASSUMPTIONS = ["the token-level theorems speak about token rows; text -> rows is proven for the OPB writer's own output "
+               "(Props/C12/Text.lean: opb_text_roundtrip, numbers up to 4300 digits) and for the LaTeX writer's own output "
+               "(Props/C12/LatexText.lean: latex_text_lex, latex_text_rows_*; names without white space); the lexers on other texts are compared, not proven",
                "typographic meaning of the LaTeX (alignment blanks, what \\overline covers) is not part of any theorem"]
 NOTES = ["D14 (fixed 81c9102): header value / label with a line break -> non-comment line in the OPB file; corpus cls linebreak keeps exercising it",
          "D31 (fixed 47b0608): LaTeX omitted every coefficient <= 1, so a zero coefficient was shown as 1; corpus cls zerocoef keeps exercising it",
@@ -282,6 +286,41 @@ def build_rlatexrow(info):
     return Case("rlatexrow", r, impl, None, cls=("opb" if is_opb(F) else "cnf") + ":" + info["src"], nontrivial=True, info=info)
 
 
+def build_rlatexbody(info):
+    F = make_formula(info)
+    if F is None:
+        return None
+    names = latex_names(F)
+    if not simple_names(names):
+        return None
+    form = info.get("form", "snippet")
+    if form == "snippet":
+        text = F.to_latex()
+    elif form == "doc":
+        out = io.StringIO()
+        F.to_file(out, fileformat="latex", export_header=bool(info.get("export_header", True)), extra_text=info.get("extra", ""))
+        doc = out.getvalue()
+        intro = ("\\noindent\\textbf{{Pseudo-boolean formula with {} variables and and {} constraints:}}\n" if is_opb(F)
+                 else "\\noindent\\textbf{{CNF with {} variables and and {} clauses:}}\n").format(F.number_of_variables(), len(F))
+        try:
+            text = iolib.latex_doc_body(doc, intro)
+        except ValueError:
+            return None
+    else:
+        out = io.StringIO()
+        _print_latex(F, out, split_every=int(info.get("split", 35)), compact=bool(info.get("compact", False)))
+        text = out.getvalue()
+    r = req("rlatexbody", 1 if is_opb(F) else 0, enc_names(names), enc_str(text))
+    items = items_of(F)
+
+    def impl():
+        if is_opb(F):
+            return ok(fmt_pbcs(items))
+        return ok(common.fmt_clauses(items))
+    return Case("rlatexbody", r, impl, None, cls=("opb" if is_opb(F) else "cnf") + ":" + form + ":" + info["src"] +
+                (":rows=" + str(len(F)) if len(F) in (0, 1, 34, 35, 36, 70, 71) else ""), nontrivial=len(F) > 0, info=info)
+
+
 # ------------------------------------------------------------------ format selection
 class Sink:
     """a file-like object with a chosen .name"""
@@ -382,6 +421,8 @@ def build(suite, info):
         return build_wlatex(suite, info)
     if suite == "rlatexrow":
         return build_rlatexrow(info)
+    if suite == "rlatexbody":
+        return build_rlatexbody(info)
     if suite == "guessfmt":
         return build_guessfmt(info)
     raise ValueError(suite)
@@ -514,6 +555,9 @@ def cases(ctx):
         for split in (-1, 0, 1, 2, 3):
             for compact in (False, True):
                 infos.append(("wlatexbody", dict(f, split=split, compact=compact)))
+                infos.append(("rlatexbody", dict(f, form="body", split=split, compact=compact)))
+        infos.append(("rlatexbody", dict(f, form="snippet")))
+        infos.append(("rlatexbody", dict(f, form="doc", export_header=True, extra="some text\n")))
     # ---- names outside ASCII, written through a file name (seeded change C12-6)
     for u in (False, True):
         infos.append(("wlatexdoc", dict(src="hand", cls="cnf", n=3, clauses=[[1, -2], [3], [-1, -3]], labels=["α", "β_1", "é^2"],
@@ -526,6 +570,10 @@ def cases(ctx):
         infos.append(("wlatexdoc", dict(rand_opb_info(rng, m), export_header=bool(m % 2))))
         infos.append(("wlatex", dict(rand_cnf_info(rng, m))))
         infos.append(("wlatex", dict(rand_opb_info(rng, m))))
+        for mk in (rand_cnf_info, rand_opb_info):
+            infos.append(("rlatexbody", dict(mk(rng, m), form="doc", export_header=bool(m % 2))))
+            infos.append(("rlatexbody", dict(mk(rng, m), form="snippet")))
+            infos.append(("rlatexbody", dict(mk(rng, m), form="body", split=rng.choice([1, 2, 7, 34, 35, 36]), compact=bool(m % 2))))
     # ---- odd strings in headers / labels
     for i, s in enumerate(odd):
         base = dict(src="hand", cls="opb" if i % 2 else "cnf", n=3, labels=[s, odd[(i + 7) % len(odd)]],
@@ -555,6 +603,8 @@ def cases(ctx):
             infos.append(("wlatexdoc", dict(base, export_header=rng.random() < .5, extra="\\noindent command line text\n")))
             for _ in range(3):
                 infos.append(("rlatexrow", dict(base, row=rng.randint(0, 40), compact=rng.random() < .5)))
+            infos.append(("rlatexbody", dict(base, form=rng.choice(["snippet", "doc", "body"]), split=rng.choice([-1, 3, 35]),
+                                             compact=rng.random() < .5)))
     # ---- random
     reps = 120 if tier == "quick" else 6000
     for _ in range(reps):
@@ -575,6 +625,8 @@ def cases(ctx):
             m = len(f.get("constraints", f.get("clauses", [])))
             if m:
                 infos.append(("rlatexrow", dict(f, row=rng.randrange(m), compact=rng.random() < .5, split=rng.choice([2, 3, 35]))))
+            infos.append(("rlatexbody", dict(f, form=rng.choice(["snippet", "doc", "body", "body"]), split=rng.choice([-1, 0, 1, 2, 3, 5, 35]),
+                                             compact=rng.random() < .5)))
     for _ in range(reps // 6):
         infos.append(("wlatex", rand_opb_info(rng, zero_ok=True)))
     # ---- OPB reader: tool outputs and their mutations
